@@ -441,7 +441,7 @@ func genChanV(tier string, seed int64, only string) []*Case {
 	lists := [][]int{{}, {1}, {1, 2, 3}, {1, 2, 3, 4, 5, 6, 7, 8}}
 	nRandom := 2
 	if tier == "thorough" {
-		nRandom = 12
+		nRandom = 40
 	}
 	for i := 0; i < nRandom; i++ {
 		lists = append(lists, randomList(r, 5+r.Intn(12)))
